@@ -138,7 +138,8 @@ class Frame:
         self.id = Frame._next[0]
         self.body = body
         self.args = args
-        self.depth = depth
+        self.depth = depth          # nesting of inlined / expanded frames (bounds the expansion)
+        self.evdepth = depth        # depth recorded in events: a helper *expanded* path by path counts as its caller's own code
 
 
 class State:
@@ -530,7 +531,7 @@ class Explorer:
     def _note_store(self, st, fr, b, t, loc, val):
         if loc[0][0] == 'ext':
             st.path.events.append({'k': 'store', 'loc': loc, 'val': val, 'bb': b, 'line': t['line'],
-                                   'depth': fr.depth, 'in': fr.body.id, 'via': 'move-model'})
+                                   'depth': fr.evdepth, 'in': fr.body.id, 'via': 'move-model'})
 
     def do_call(self, st, fr, b, t):
         from facts import callee_name, callee_decl
@@ -540,7 +541,7 @@ class Explorer:
         site = (fr.body.id if fr.depth else '', b, st.seq)
         st.seq += 1
         ev = {'k': 'call', 'callee': name, 'decl': decl, 'args': args, 'bb': b, 'line': t['line'],
-              'epoch': st.epoch, 'term': t, 'exp': t.get('exp', False), 'depth': fr.depth,
+              'epoch': st.epoch, 'term': t, 'exp': t.get('exp', False), 'depth': fr.evdepth,
               'in': fr.body.id, 'site': site}
         # values of the locals handed over by reference, as they are when the call is made
         rv = {}
@@ -711,6 +712,7 @@ class Explorer:
     def inline_call(self, st, fr, cb, args):
         """evaluate a straight-line callee in place; returns (ret, pure) or None"""
         f2 = Frame(cb, args, fr.depth + 1)
+        f2.evdepth = fr.evdepth + 1
         self._frames[f2.id] = f2
         e0 = st.epoch
         n_ev = len(st.path.events)
@@ -766,7 +768,7 @@ class Explorer:
                 self.store(st, loc, v)
                 if loc[0][0] == 'ext':
                     st.path.events.append({'k': 'store', 'loc': loc, 'val': v, 'bb': b, 'line': s['line'],
-                                           'depth': fr.depth, 'in': fr.body.id})
+                                           'depth': fr.evdepth, 'in': fr.body.id})
             elif s['k'] == 'setdiscr':
                 loc = self.loc_of(st, fr, s['place'])
                 self.store(st, loc, ('setdiscr', s['variant']))
@@ -774,7 +776,7 @@ class Explorer:
     def record_assert(self, st, fr, b, t):
         c = self.operand(st, fr, t['cond'])
         ev = {'k': 'assert', 'kind': t['assert_kind'], 'cond': c, 'bb': b, 'line': t['line'], 'term': t,
-              'depth': fr.depth, 'in': fr.body.id}
+              'depth': fr.evdepth, 'in': fr.body.id}
         for key in ('len', 'index', 'a', 'b'):
             if key in t:
                 ev[key] = self.operand(st, fr, t[key])
@@ -928,7 +930,7 @@ class Explorer:
             elif k == 'drop':
                 loc = self.loc_of(st, fr, t['place'])
                 st.path.events.append({'k': 'drop', 'ty': t['ty'], 'loc': loc, 'val': self.load(st, fr, loc),
-                                       'bb': b, 'line': t['line'], 'replace': t.get('replace', False), 'depth': fr.depth,
+                                       'bb': b, 'line': t['line'], 'replace': t.get('replace', False), 'depth': fr.evdepth,
                                        'needs_drop': t.get('needs_drop', True), 'in': body.id})
                 b = t['target']
             elif k == 'assert':
@@ -939,7 +941,7 @@ class Explorer:
                 from facts import callee_name
                 dest, target = t['dest'], t['target']
                 st.path.events.append({'k': 'call', 'callee': callee_name(t), 'decl': callee_name(t), 'args': (opt,), 'bb': b, 'line': t['line'],
-                                       'epoch': st.epoch, 'term': t, 'exp': t.get('exp', False), 'depth': fr.depth, 'in': body.id,
+                                       'epoch': st.epoch, 'term': t, 'exp': t.get('exp', False), 'depth': fr.evdepth, 'in': body.id,
                                        'inlined': True, 'expanded': True, 'pure': True, 'ret': ('c', ('zst', 'expanded'))})
                 o = strip_upd(simplify(subst(opt, st.path.conds)))
                 if o[0] == 'agg' and o[1] == 'adt' and o[5].endswith('Option'):
@@ -956,7 +958,7 @@ class Explorer:
                         dvv = ('discr', opt)
                         for (vv, cc) in normalise_cond(dvv, cond):
                             s2.path.conds.append((vv, cc))
-                        s2.path.events.append({'k': 'branch', 'val': dvv, 'cond': cond, 'bb': b, 'line': t['line'], 'depth': fr.depth})
+                        s2.path.events.append({'k': 'branch', 'val': dvv, 'cond': cond, 'bb': b, 'line': t['line'], 'depth': fr.evdepth})
                     if variant == 'None':
                         val = ('agg', 'adt', 'Break', ('0',), (NONE,), 'std::ops::ControlFlow')
                     else:
@@ -969,7 +971,7 @@ class Explorer:
                 kind, opt, cval, ccb, default, cname = self.option_combinator(st, fr, t)
                 dest, target = t['dest'], t['target']
                 st.path.events.append({'k': 'call', 'callee': cname, 'decl': cname, 'args': (opt,) + ((default,) if default is not None else ()) + (cval,),
-                                       'bb': b, 'line': t['line'], 'epoch': st.epoch, 'term': t, 'exp': t.get('exp', False), 'depth': fr.depth,
+                                       'bb': b, 'line': t['line'], 'epoch': st.epoch, 'term': t, 'exp': t.get('exp', False), 'depth': fr.evdepth,
                                        'in': body.id, 'inlined': True, 'expanded': True, 'pure': True, 'ret': ('c', ('zst', 'expanded'))})
                 o = strip_upd(simplify(subst(opt, st.path.conds)))
                 if o[0] == 'agg' and o[1] == 'adt' and o[5].endswith('Option'):
@@ -987,7 +989,7 @@ class Explorer:
                         dvv = ('discr', opt)
                         for (vv, cc) in normalise_cond(dvv, cond):
                             s2.path.conds.append((vv, cc))
-                        s2.path.events.append({'k': 'branch', 'val': dvv, 'cond': cond, 'bb': b, 'line': t['line'], 'depth': fr.depth})
+                        s2.path.events.append({'k': 'branch', 'val': dvv, 'cond': cond, 'bb': b, 'line': t['line'], 'depth': fr.evdepth})
                     if variant == 'None':
                         self.store(s2, self.loc_of(s2, fr, dest), none_ret)
                         self._run(s2, target, fr, cont)
@@ -997,6 +999,7 @@ class Explorer:
                     else:
                         payload = simplify(('field', ('variant', opt, 'Some'), '0'))
                     f2 = Frame(ccb, (cval, payload), fr.depth + 1)
+                    f2.evdepth = fr.evdepth
                     f2.parent = fr
                     self._frames[f2.id] = f2
 
@@ -1013,10 +1016,11 @@ class Explorer:
                     from facts import callee_name
                     args = tuple(self.operand(st, fr, a) for a in t['args'])
                     ev = {'k': 'call', 'callee': callee_name(t), 'decl': callee_name(t), 'args': args, 'bb': b, 'line': t['line'],
-                          'epoch': st.epoch, 'term': t, 'exp': t.get('exp', False), 'depth': fr.depth, 'in': body.id,
+                          'epoch': st.epoch, 'term': t, 'exp': t.get('exp', False), 'depth': fr.evdepth, 'in': body.id,
                           'inlined': True, 'expanded': True, 'pure': False, 'ret': ('c', ('zst', 'expanded'))}
                     st.path.events.append(ev)
                     f2 = Frame(cb, args, fr.depth + 1)
+                    f2.evdepth = fr.evdepth
                     f2.parent = fr
                     self._frames[f2.id] = f2
                     dest, target = t['dest'], t['target']
@@ -1060,7 +1064,7 @@ class Explorer:
                     s2 = st.fork() if i < len(branches) - 1 else st
                     for (vv, cc) in normalise_cond(v, c):
                         s2.path.conds.append((vv, cc))
-                    s2.path.events.append({'k': 'branch', 'val': v, 'cond': c, 'bb': b, 'line': t['line'], 'depth': fr.depth})
+                    s2.path.events.append({'k': 'branch', 'val': v, 'cond': c, 'bb': b, 'line': t['line'], 'depth': fr.evdepth})
                     self._run(s2, bb, fr, cont)
                 return
             else:
